@@ -177,17 +177,29 @@ def Sys.ofScripts {κ : Type} (prog : κ → List Act) (scripts : List (List κ)
 
 /-! ### from protocol steps to lock actions -/
 
-/-- `Tx::new(writer)` -/
-def beginAct (writer : Bool) : BeginStep → List Act
+def LockUse.acq : LockUse → Act
+  | .file => .acq .F | .mapRead => .acqRead | .mapWrite => .acq .M
+  | .readers => .acq .O | .data => .acq .D | .freelist => .acq .L
+
+def LockUse.rel : LockUse → Act
+  | .file => .rel .F | .mapRead => .relRead | .mapWrite => .rel .M
+  | .readers => .rel .O | .data => .rel .D | .freelist => .rel .L
+
+/-- a function that takes the listed locks (guards bound to locals) and returns: acquisitions in source order,
+releases in reverse order when the guards drop -/
+def guardActs (us : List LockUse) : List Act := us.map LockUse.acq ++ us.reverse.map LockUse.rel
+
+/-- `Tx::new(writer)`; `meta` = the locks `DBInner::meta()` takes (regenerated: `Gen.metaLocks`) -/
+def beginAct (writer : Bool) (mlocks : List LockUse) : BeginStep → List Act
   | .lockTx => if writer then [.acq .F] else [.acqRead]
   | .cloneFreelist => [.acq .L, .rel .L]           -- `freelist.lock()?.clone()`
-  | .readMeta => [.acq .D, .rel .D]                -- `meta()` locks the map handle and returns
+  | .readMeta => guardActs mlocks                    -- `meta()` takes its locks and returns
   | .lockReaders => [.acq .O]
   | .releaseOrRegister => []
   | .unlockReaders => [.rel .O]
   | .cloneMap => [.acq .D, .rel .D]                -- `data.lock()?.clone()`
 
-def beginActs (writer : Bool) (steps : List BeginStep) : List Act := steps.flatMap (beginAct writer)
+def beginActs (writer : Bool) (mlocks : List LockUse) (steps : List BeginStep) : List Act := steps.flatMap (beginAct writer mlocks)
 
 /-- `DBInner::resize`: the guards live until the function returns and are dropped in reverse order -/
 def resizeAcq : ResizeStep → List Act
@@ -211,17 +223,17 @@ structure CommitPath where
   stopAfter : Option Nat   -- `some n`: error return after `n` steps; `none`: runs to the end
   deriving DecidableEq, Repr
 
-def commitAct (c : CommitPath) (resize : List ResizeStep) : CommitStep → List Act
+def commitAct (c : CommitPath) (resize : List ResizeStep) (mlocks : List LockUse) : CommitStep → List Act
   | .grow => if c.grows then resizeActs resize else []
   | .publishFreelist => if c.publishes then [.acq .L, .rel .L] else []
   | .publishIfVisible =>
-      (if c.reread then [.acq .D, .rel .D] else []) ++ (if c.publishes then [.acq .L, .rel .L] else [])
+      (if c.reread then guardActs mlocks else []) ++ (if c.publishes then [.acq .L, .rel .L] else [])
   | _ => []
 
-def commitActs (c : CommitPath) (resize : List ResizeStep) (steps : List CommitStep) : List Act :=
+def commitActs (c : CommitPath) (resize : List ResizeStep) (mlocks : List LockUse) (steps : List CommitStep) : List Act :=
   (match c.stopAfter with
    | none => steps
-   | some n => steps.take n).flatMap (commitAct c resize)
+   | some n => steps.take n).flatMap (commitAct c resize mlocks)
 
 /-- `Drop for TxInner`, then the drop of the fields (the transaction lock) -/
 def dropAcq : DropStep → List Act
@@ -237,18 +249,19 @@ def dropActs (writer : Bool) (steps : List DropStep) : List Act :=
   else steps.flatMap dropAcq ++ steps.reverse.flatMap dropRel ++ [.relRead]
 
 /-- `DBInner::open` (single-threaded; listed because it is the one place where D and L nest) -/
-def openInnerAct : OpenInnerStep → List Act
-  | .readMeta => [.acq .D, .rel .D]
+def openInnerAct (mlocks : List LockUse) : OpenInnerStep → List Act
+  | .readMeta => guardActs mlocks
   | .loadFreelist => [.acq .D, .acq .L, .rel .L, .rel .D]
   | _ => []
 
-def openActs (steps : List OpenInnerStep) : List Act := steps.flatMap openInnerAct
+def openActs (mlocks : List LockUse) (steps : List OpenInnerStep) : List Act := steps.flatMap (openInnerAct mlocks)
 
 structure Tables where
   begin : List BeginStep
   commit : List CommitStep
   resize : List ResizeStep
   drop : List DropStep
+  mlocks : List LockUse := [.data]     -- the locks `DBInner::meta()` takes
 
 inductive Kind where
   | read                               -- begin, use, drop
@@ -257,9 +270,9 @@ inductive Kind where
 
 /-- the lock actions of one whole transaction -/
 def program (T : Tables) : Kind → List Act
-  | .read => beginActs false T.begin ++ dropActs false T.drop
-  | .write none => beginActs true T.begin ++ dropActs true T.drop
-  | .write (some c) => beginActs true T.begin ++ commitActs c T.resize T.commit ++ dropActs true T.drop
+  | .read => beginActs false T.mlocks T.begin ++ dropActs false T.drop
+  | .write none => beginActs true T.mlocks T.begin ++ dropActs true T.drop
+  | .write (some c) => beginActs true T.mlocks T.begin ++ commitActs c T.resize T.mlocks T.commit ++ dropActs true T.drop
 
 /-- the complete, successful commit -/
 def CommitPath.full (grows : Bool) : CommitPath :=
